@@ -95,7 +95,7 @@ func c05Run(ops string) string {
 	// an op may carry expectations "@u<N>" (N upstream packets surfaced so far) and "@d<i>=<n>" (n downstream
 	// bytes on carrier i so far): the driver waits for them (bounded) so that scheduling cannot reorder effects
 	waitFor := func(exps []string) {
-		deadline := time.Now().Add(1500 * time.Millisecond)
+		deadline := time.Now().Add(8 * time.Second)
 		for time.Now().Before(deadline) {
 			ok := true
 			for _, e := range exps {
@@ -106,6 +106,15 @@ func c05Run(ops string) string {
 						ok = false
 					}
 					upMu.Unlock()
+				} else if e[0] == 'k' {
+					i, _ := strconv.Atoi(e[1:])
+					if i < len(carriers) {
+						carriers[i].mu.Lock()
+						if !carriers[i].closed {
+							ok = false
+						}
+						carriers[i].mu.Unlock()
+					}
 				} else if e[0] == 'd' {
 					f := strings.SplitN(e[1:], "=", 2)
 					i, _ := strconv.Atoi(f[0])
@@ -177,6 +186,7 @@ func c05Run(ops string) string {
 			for j := range wbuf {
 				wbuf[j] ^= 0xa5
 			}
+		case op == "z": // no-op carrying final expectations
 		default:
 			continue
 		}
